@@ -20,7 +20,8 @@ RULE = (
     "argument tuples, with its setup nodes run beforehand or (half of the cases) not: each await returns the reference value for its own arguments and "
     "the pooled observation multiset is the sum of the k reference multisets. (live) AsyncDAGs whose pooled nodes are "
     "all async-thread: (i) a node blocks until a sibling coroutine of the same loop sets an event, (ii) the first node "
-    "of each of k gathered executions waits on a k-party barrier - both can only complete if the loop keeps serving "
+    "of each of k gathered executions waits on a k-party barrier, (iii) a node fails while a sibling async-thread node "
+    "is still waiting for a coroutine of the loop - all can only complete if the loop keeps serving "
     "other coroutines while nodes are in flight; a stall is a violation only with the witness 'loop thread inside a "
     "blocking call below tawazi/_dag/helpers.py', otherwise inconclusive. non-trivial = gather with k >= 2 distinct "
     "argument tuples, a live case, or an eq case with >= 3 call sites and >= 2 resources."
@@ -136,9 +137,24 @@ def _live_prog(kind: str, k: int) -> Dict[str, Any]:
     return {"name": "L", "params": [["p0", None]], "fns": fns, "body": body, "ret": ["T", [["v", "v0"], ["v", "v2"]]]}
 
 
+def _live_fail_prog(fail_res: str) -> Dict[str, Any]:
+    """An async-thread node that waits for a sibling coroutine, next to a node that fails: after the failure the
+    await must return control to the loop although the other node is still running."""
+    fns = {"w": {"kind": "waitev", "res": "async-thread"}, "f": {"kind": "bomb", "res": fail_res}}
+    body = [
+        {"k": "call", "fn": "w", "site": "@s0", "mark": True, "args": [["p", "p0"]], "kwargs": {}, "active": None, "unpack": None, "tags": [], "out": "v0"},
+        {"k": "call", "fn": "f", "site": "@s1", "mark": False, "args": [["c", "BOOM"]], "kwargs": {}, "active": None, "unpack": None, "tags": [], "out": "v1"},
+    ]
+    return {"name": "LF", "params": [["p0", None]], "fns": fns, "body": body, "ret": ["T", [["v", "v0"], ["v", "v1"]]]}
+
+
 def _live(case: Dict[str, Any], res: CaseResult) -> None:
     kind, k, mc = case["live"], case["k"], case["config"].get("mc", 2)
-    P = _live_prog("waitev" if kind == "event" else "barrier", k)
+    if kind == "fail":
+        P = _live_fail_prog(case.get("fail_res", "async-thread"))
+        mc = max(mc, 2)
+    else:
+        P = _live_prog("waitev" if kind == "event" else "barrier", k)
     b = prog.build(P, is_async=True, mc=mc)
     prog.LIVE.clear()
     prog.LIVE.update(event=threading.Event(), barrier=threading.Barrier(k), timeout=LIVE_TIMEOUT, timed_out=False)
@@ -156,12 +172,12 @@ def _live(case: Dict[str, Any], res: CaseResult) -> None:
     sibling_ran = []
 
     async def sibling() -> None:
-        await asyncio.sleep(0.001)
+        await asyncio.sleep(0.05 if kind == "fail" else 0.001)
         sibling_ran.append(True)
         prog.LIVE["event"].set()
 
     async def main() -> Any:
-        n = 1 if kind == "event" else k
+        n = 1 if kind in ("event", "fail") else k
         coros = [b.dag(i) for i in range(n)]
         return await asyncio.gather(sibling(), *coros, return_exceptions=True)
 
@@ -173,9 +189,11 @@ def _live(case: Dict[str, Any], res: CaseResult) -> None:
     res.nontrivial = True
     res.cls("live-" + kind)
     for v in vals:
-        if isinstance(v, BaseException):
+        if isinstance(v, BaseException) and kind != "fail":
             res.viol("error", f"live case raised {type(v).__name__}: {str(v)[:300]}")
             return
+    if kind == "fail" and not any(isinstance(v, BaseException) for v in vals):
+        res.viol("failure-swallowed", "the failing node did not fail the await")
     if prog.LIVE.get("timed_out"):
         frames = witness.get("frames", [])
         below = False
@@ -208,8 +226,8 @@ def run_case(case: Dict[str, Any]) -> CaseResult:
 def cases(draw: Any, tier: str) -> Dict[str, Any]:
     fam = draw(st.sampled_from(["eq", "eq", "gather", "gather", "live"]))
     if fam == "live":
-        return {"family": "live", "live": draw(st.sampled_from(["event", "barrier"])), "k": draw(st.integers(2, 4)),
-                "config": {"mc": draw(st.integers(1, 3))}}
+        return {"family": "live", "live": draw(st.sampled_from(["event", "barrier", "fail"])), "k": draw(st.integers(2, 4)),
+                "config": {"mc": draw(st.integers(1, 3))}, "fail_res": draw(st.sampled_from(["async-thread", "thread", "main-thread"]))}
     c = draw(richgen.rich_case(depth=1, max_stmts=7, flag_w=5))
     P = c["prog"]
     sites = prog.sites_of(P)
